@@ -283,6 +283,19 @@ def gen_obs(r, *, odd_width=True, deterministic_only=False, max_extent=7):
     return {'name': n, 'area': area}
 
 
+def aligned_pose(area, heading):
+    """(h, w, y, x): grid shape and agent cell for which the view `area` covers the grid exactly"""
+    (ymin, ymax), (xmin, xmax) = area
+    vh, vw = ymax - ymin + 1, xmax - xmin + 1
+    if heading == 'FORWARD':
+        return vh, vw, -ymin, -xmin
+    if heading == 'BACKWARD':
+        return vh, vw, ymax, xmax
+    if heading == 'RIGHT':
+        return vw, vh, -xmin, ymax
+    return vw, vh, xmax, -ymin
+
+
 def gen_actions(r):
     m = r.random()
     if m < 0.5:
@@ -308,13 +321,42 @@ def gen_hand_client(r, *, hmax=8, wmax=8, allow_stochastic=True, deterministic_o
     h = r.randint(min_hw, hmax)
     w = r.randint(min_hw, wmax)
     wkw = dict(unique=unique, beacon_colour=beacon_colour, valid_start=valid_start)
-    world = gen_world(r, h, w, types, colors, **wkw)
-    pool = [gen_world(r, h, w, types, colors, **wkw) for _ in range(r.randint(0, n_pool))]
+    obs = gen_obs(r, deterministic_only=deterministic_obs)
+    if obs['name'] == 'partially_occluded' and obs['area'][0][1] != 0:
+        obs['area'][0] = [obs['area'][0][0] - obs['area'][0][1], 0]
+    align = r.random() < 0.12
+    if align:
+        # boundary condition: the view covers the grid exactly (for one pose)
+        ahd = r.choice(HEADINGS)
+        ah, aw, ay, ax = aligned_pose(obs['area'], ahd)
+        if ah >= min_hw and aw >= min_hw and 0 <= ay < ah and 0 <= ax < aw:
+            h, w = ah, aw
+        else:
+            align = False
+
+    def mk():
+        wv = gen_world(r, h, w, types, colors, **wkw)
+        if align and r.random() < 0.7:
+            c = wv['cells'][ay][ax]
+            blocking = c[0] in ('Wall', 'Box') or (c[0] == 'Door' and c[1] != 'OPEN')
+            if blocking and c[0] == unique and valid_start:
+                return wv
+            wv['agent'][0], wv['agent'][1], wv['agent'][2] = ay, ax, ahd
+            if blocking and c[0] != unique and (valid_start is None or valid_start):
+                wv['cells'][ay][ax] = ['Floor']
+        return wv
+
+    world = mk()
+    pool = [mk() for _ in range(r.randint(0, n_pool))]
     if not all(precond_ok(unique, beacon, wv) for wv in [world] + pool):
         # too small to host both the unique object and a beacon: drop the beacon precondition
         beacon, wkw['beacon_colour'] = False, None
-        world = gen_world(r, h, w, types, colors, **wkw)
-        pool = [gen_world(r, h, w, types, colors, **wkw) for _ in pool]
+        world = mk()
+        pool = [mk() for _ in pool]
+        if not all(precond_ok(unique, beacon, wv) for wv in [world] + pool):
+            unique, wkw['unique'] = None, None
+            world = mk()
+            pool = [mk() for _ in pool]
     rewards = [gen_reward(r, types, unique, beacon) for _ in range(r.randint(1, 3))]
     spec = {
         'kind': 'hand',
@@ -323,7 +365,7 @@ def gen_hand_client(r, *, hmax=8, wmax=8, allow_stochastic=True, deterministic_o
         'chain': chain,
         'rewards': rewards,
         'term': gen_term(r, types),
-        'obs': gen_obs(r, deterministic_only=deterministic_obs),
+        'obs': obs,
         'actions': gen_actions(r),
         'types': types,
         'colors': colors,
@@ -332,8 +374,6 @@ def gen_hand_client(r, *, hmax=8, wmax=8, allow_stochastic=True, deterministic_o
         'via_factory': r.random() < 0.5,
         'env_seed': env_seed if env_seed is not None else r.randrange(2**31),
     }
-    if spec['obs']['name'] == 'partially_occluded' and spec['obs']['area'][0][1] != 0:
-        spec['obs']['area'][0] = [spec['obs']['area'][0][0] - spec['obs']['area'][0][1], 0]
     return spec
 
 
